@@ -273,9 +273,9 @@ def main(chk, args):
 
     def special_key(rule, what):
         words = [w for p in rule['params'] for w in p['field']] + [w for b in rule['http'] for v in b for w in v['field']]
-        if 'class' in words:
+        if what in ('generation', 'import') and 'class' in words:
             return ('keyword-explicit-field:class' if rule['explicit'] else 'keyword-nested-implicit:class')
-        if rule['explicit'] and not rule['params']:
+        if what in ('generation', 'import') and rule['explicit'] and not rule['params']:
             return f'explicit-zero-params:{what}'
         return f'{what}:{rule_shape(rule)}'
 
